@@ -8,6 +8,7 @@ Model/ShortestPaths.lean (DBL_MAX + x >= DBL_MAX for x >= 0).  `T** D` = `Array 
 """
 _SHIM = """#include "libcola/shortest_paths.h"
 template void shortest_paths::floyd_warshall<double>(unsigned const, double**, std::vector<shortest_paths::Edge> const&, std::valarray<double> const&);
+template void shortest_paths::dijkstra_init<double>(std::vector<shortest_paths::Node<double> >&, std::vector<shortest_paths::Edge> const&, std::valarray<double> const&);
 """
 
 _DIST = dict(lit="(some (%s : Rat) : Dist)", max="(none : Dist)",
@@ -18,14 +19,19 @@ SHORTEST = dict(
     shim=_SHIM,
     ns="AdaptaVerif.Gen.ShortestPathsK",
     out="lean/AdaptaVerif/Gen/ShortestPathsK.lean",
-    imports=["AdaptaVerif.Gen.PreludeLoops", "AdaptaVerif.Model.ShortestPaths"],
-    opens=["AdaptaVerif.Model.ShortestPaths (Dist oadd omin)", "AdaptaVerif.Model.PairingHeap (ltDist)"],
-    functions=["floyd_warshall"],
+    imports=["AdaptaVerif.Gen.PreludeLoops", "AdaptaVerif.Model.ShortestPaths", "AdaptaVerif.Gen.KeysShortest"],
+    opens=["AdaptaVerif.Model.ShortestPaths (Dist oadd omin)", "AdaptaVerif.Model.PairingHeap (ltDist)", "AdaptaVerif.Gen.KeysShortest"],
+    functions=["floyd_warshall", "dijkstra_init"],
     types={"double": "Dist"},
     num={"Dist": _DIST},
     qual_types={"double **": ("Array (Array Dist)", "state"),
                 "std::vector<Edge>": ("List (Nat × Nat)", "val"),
-                "std::valarray<double>": ("List Dist", "val")},
+                "std::valarray<double>": ("List Dist", "val"),
+                # dijkstra_init: the node vector (read and written); Node<T>* into it = the element's index
+                "std::vector<Node<double>>": ("Array NodeK", "state"),
+                "std::vector<shortest_paths::Node<double>>": ("Array NodeK", "state")},
+    fields={("NodeK", "neighbours"): "List Nat", ("NodeK", "nweights"): "List Dist"},
+    elem_addr_as_index=["vs"],
 )
 
 JOBS = {"shortest": SHORTEST}
